@@ -39,6 +39,7 @@ RULE = (
     "every stored k under p and generated absent keys under p. Non-trivial = branch of "
     ">=3 nodes and a corrupted-but-still-parsable branch was offered. Distinct = "
     "canonical JSON."
+    ' Added after the seeded rounds: every other case keeps its trie in a minimal mapping class (item access and `in` only); the same request is first made on a root-only partial database; forged branches are also offered as a mapping {claimed hash: node}; values equal to node hashes.'
 )
 LEVEL_TEXT = (
     "Exploration by differential property testing: honest branches/witnesses against "
